@@ -564,3 +564,30 @@ def cr4(F, R):
                 n16 += 1
                 R.require(f.npath.endswith(("SdCardInner::read_data", "SdCardInner::write_data")), f, "crc16-site", "crc16 used in %s" % f.npath, f.loc(b))
     R.require(n7 == 1 and n16 == 2, None, "site-count", "expected 1 crc7 and 2 crc16 use sites, found %d / %d" % (n7, n16))
+    # frames that do not go through card_command's assembly: a constant six-byte command frame (start bits 01) anywhere in the
+    # driver must end in the CRC-7 of its first five bytes with the end bit set
+    def crc7_of(bs):
+        crc = 0
+        for d in bs:
+            for _ in range(8):
+                crc = (crc << 1) & 0xFF
+                if (d ^ crc) & 0x80:
+                    crc ^= 0x09
+                d = (d << 1) & 0xFF
+        return ((crc << 1) | 1) & 0xFF
+    frames = []
+    for path, c in F.consts.items():
+        if path.startswith("sdcard::") and "::test" not in path and c.get("elems") is not None and len(c["elems"]) == 6 and c.get("ty", "").replace(" ", "") == "[u8;6]":
+            frames.append((path, [int(x) for x in c["elems"]]))
+    for f in F.fns:
+        if not f.npath.startswith("sdcard::") or f.npath.startswith("sdcard::proto::test"):
+            continue
+        for b, i, s_ in f.stmts():
+            if s_["k"] == "Assign" and s_["rv"]["k"] == "Aggregate" and s_["rv"]["agg"] == "Array" and len(s_["rv"]["ops"]) == 6:
+                vals = [f.term_of_operand(o, b) for o in s_["rv"]["ops"]]
+                if all(v[0] == "c" and isinstance(v[1], int) for v in vals) and f.locals[s_["p"]["l"]]["ty"].replace(" ", "") == "[u8;6]":
+                    frames.append(("%s (%s)" % (f.npath, f.loc(b, i)), [v[1] & 0xFF for v in vals]))
+    for where, bs in frames:
+        if bs[0] & 0xC0 != 0x40:
+            continue
+        R.require(bs[5] == crc7_of(bs[:5]), None, "constant-frame:" + where.split("::")[-1][:40], "the constant command frame %s in %s does not end in the CRC-7 of its first five bytes with the end bit set (%#04x expected)" % (["%02x" % x for x in bs], where, crc7_of(bs[:5])))
